@@ -193,3 +193,16 @@ package linux
 //vc:  invariant[C18] 4 "for _, ru := range bChain.rules" @insertPositions 0 <= prependPos && prependPos <= rangeindex + 1 && appendPos == loopold(appendPos) + rangeindex + 1 && prependPos <= appendPos && loopold(appendPos) <= loopold(len(aChain.rules)) && 0 <= loopold(appendPos)
 //vc:  invariant[C18] 4 "for _, ru := range bChain.rules" @originalRulesStayTogether forall j int :: { aChain.rules[prependPos + j] } 0 <= j && j < loopold(appendPos) ==> aChain.rules[prependPos + j] == loopold(aChain.rules[j])
 //vc:  invariant[C18] 4 "for _, ru := range bChain.rules" @trailingDropsStayLast forall j int :: { loopold(aChain.rules[j]) } loopold(appendPos) <= j && j < loopold(len(aChain.rules)) ==> aChain.rules[j + rangeindex + 1] == loopold(aChain.rules[j])
+
+// ---- C05: normal form of rule options ----
+// What normalisation may do to the value v of option k (w is the result):
+// an address loses at most a trailing /32, a protocol is lower-cased and two
+// names become numbers, ports / state / mark / log level have their own
+// rewritings (not specified here), every other option is left alone.
+//vc:spec func normProto(x string) string = ite(x == "vrrp", "112", ite(x == "ipv6-icmp", "58", x))
+//vc:spec func normRel(k string, v string, w string) bool = ite(k == "-s" || k == "-d", w == v || v == w + "/32", ite(k == "-p", w == normProto(strings.ToLower(v)), ite(k == "--sport" || k == "--dport" || k == "--state" || k == "--set-mark" || k == "--log-level", true, w == v)))
+//vc:spec func specialKey(k string) bool = k == "-m" || k == "--set-xmark" || k == "--set-mark"
+//vc:func normalizeIPTables
+//vc:  invariant[C05] 1 "for k, v := range pairs" @normalisedOnceIfVisited forall c string :: { pairs[c] } !specialKey(c) ==> (rangevisited[c] ==> normRel(c, old(pairs[c]), pairs[c])) && (!rangevisited[c] ==> pairs[c] == old(pairs[c])) && ((c in pairs) == old(c in pairs))
+//vc:  ensures[C05] @everyOptionInNormalForm forall c string :: { pairs[c] } !specialKey(c) && (c in pairs) ==> normRel(c, old(pairs[c]), pairs[c])
+//vc:  ensures[C05] @noOptionAddedOrLost forall c string :: { c in pairs } !specialKey(c) ==> ((c in pairs) == old(c in pairs))
